@@ -6,11 +6,13 @@ transition, the acquire loop along a simple path, payload lines
 namespace Scrapli.Priv
 open Scrapli Scrapli.Forest
 
-/-- the property's hypotheses about one scenario -/
+/-- the property's hypotheses about one scenario. Prompts need NOT distinguish the levels: every
+level recognises its own prompt, and levels with an ambiguous prompt are leaves of the graph. -/
 structure Dom (c : Cfg) : Prop where
   tree : Tree c.L
   noUnknown : unknownPriv ∉ names c.L
-  dist : distinguishes c = true
+  recog : recognises c = true
+  leaves : ambigLeaf c = true
   cmds : cmdsOK c.L = true
   asks : asksOK c = true
   ord : ∀ t, (c.orc t).Valid
@@ -20,54 +22,111 @@ structure Dom (c : Cfg) : Prop where
 theorem mem_names_iff {L : Levels} {a : Bytes} : a ∈ names L ↔ ∃ l ∈ L, l.name = a := by
   simp [names]
 
+theorem unamb_iff {c : Cfg} {m : Bytes} :
+    unambB c m = true ↔ ∀ l ∈ c.L, c.matchP l (c.promptOf m) = true → l.name = m := by
+  simp only [unambB, List.all_eq_true, Bool.or_eq_true, Bool.not_eq_true', beq_iff_eq]
+  constructor
+  · intro h l hl hm
+    rcases h l hl with h1 | h1
+    · rw [hm] at h1; cases h1
+    · exact h1
+  · intro h l hl
+    cases hm : c.matchP l (c.promptOf m) with
+    | false => exact Or.inl rfl
+    | true => exact Or.inr (h l hl hm)
+
+/-- distinguishing prompts are the special case in which every prompt is unambiguous -/
+theorem unamb_of_distinguishes {c : Cfg} (h : distinguishes c = true) {m : Bytes}
+    (hm : m ∈ names c.L) : unambB c m = true := by
+  simp only [distinguishes, List.all_eq_true, beq_iff_eq] at h
+  obtain ⟨lm, hlm, hlmn⟩ := mem_names_iff.1 hm
+  rw [unamb_iff]
+  intro l hl hmatch
+  have := h l hl lm hlm
+  rw [hlmn, hmatch] at this
+  exact beq_iff_eq.1 this.symm
+
+theorem recognises_of_distinguishes {c : Cfg} (h : distinguishes c = true) : recognises c = true := by
+  simp only [distinguishes, List.all_eq_true, beq_iff_eq] at h
+  simp only [recognises, List.all_eq_true]
+  intro l hl
+  have := h l hl l hl
+  rw [this]; simp
+
+theorem ambigLeaf_of_distinguishes {c : Cfg} (h : distinguishes c = true) : ambigLeaf c = true := by
+  simp only [ambigLeaf, List.all_eq_true, Bool.or_eq_true]
+  intro m hm
+  exact Or.inl (unamb_of_distinguishes h (mem_names_iff.2 ⟨m, hm, rfl⟩))
+
+/-- the candidate set of `determineCurrentPriv` on the prompt of level `m`: it is not empty, it
+contains `m`, all candidates are levels, and when the prompt is unambiguous all candidates are `m` -/
 theorem determineCurrent_at {c : Cfg} (hd : Dom c) {o : Orders} (ho : o.Valid) {m : Bytes}
     (hm : m ∈ names c.L) :
-    ∃ p0 ps, determineCurrent c.matchP o c.L (c.promptOf m) = p0 :: ps ∧ ∀ x ∈ p0 :: ps, x = m := by
+    ∃ p0 ps, determineCurrent c.matchP o c.L (c.promptOf m) = p0 :: ps ∧ m ∈ p0 :: ps ∧
+      (∀ x ∈ p0 :: ps, x ∈ names c.L) ∧ (unambB c m = true → ∀ x ∈ p0 :: ps, x = m) := by
   obtain ⟨lm, hlm, hlmn⟩ := mem_names_iff.1 hm
-  have hdist := hd.dist
-  simp only [distinguishes, List.all_eq_true, beq_iff_eq] at hdist
-  have hall : ∀ x ∈ determineCurrent c.matchP o c.L (c.promptOf m), x = m := by
+  have hrec := hd.recog
+  simp only [recognises, List.all_eq_true] at hrec
+  have hnames : ∀ x ∈ determineCurrent c.matchP o c.L (c.promptOf m), x ∈ names c.L := by
     intro x hx
     simp only [determineCurrent, List.mem_map, List.mem_filter] at hx
+    obtain ⟨l, ⟨hl, _⟩, rfl⟩ := hx
+    exact mem_names_iff.2 ⟨l, (ho.2 _ _).1 hl, rfl⟩
+  have hall : unambB c m = true → ∀ x ∈ determineCurrent c.matchP o c.L (c.promptOf m), x = m := by
+    intro hu x hx
+    simp only [determineCurrent, List.mem_map, List.mem_filter] at hx
     obtain ⟨l, ⟨hl, hmatch⟩, rfl⟩ := hx
-    have := hdist l ((ho.2 _ _).1 hl) lm hlm
-    rw [hlmn, hmatch] at this
-    exact (beq_iff_eq.1 this.symm)
+    exact unamb_iff.1 hu l ((ho.2 _ _).1 hl) hmatch
   have hmem : m ∈ determineCurrent c.matchP o c.L (c.promptOf m) := by
     simp only [determineCurrent, List.mem_map, List.mem_filter]
     refine ⟨lm, ⟨(ho.2 _ _).2 hlm, ?_⟩, hlmn⟩
-    have := hdist lm hlm lm hlm
+    have := hrec lm hlm
     rw [hlmn] at this
-    rw [this]; simp
+    exact this
   cases hdc : determineCurrent c.matchP o c.L (c.promptOf m) with
   | nil => rw [hdc] at hmem; cases hmem
-  | cons p0 ps => exact ⟨p0, ps, rfl, by rw [← hdc]; exact hall⟩
+  | cons p0 ps => exact ⟨p0, ps, rfl, by rw [← hdc]; exact hmem, by rw [← hdc]; exact hnames,
+      by rw [← hdc]; exact hall⟩
 
-theorem current_eq {cache tgt p0 m : Bytes} {ps : List Bytes} (h : ∀ x ∈ p0 :: ps, x = m) :
+/-- what `processAcquirePriv` needs to know to resolve the candidates to the device's level `m`:
+the prompt is unambiguous, or the tracked level is accurate, or the tracked level is not a level at
+all (`UNKNOWN`, `""`) and `m` is the target -/
+def Resolves (c : Cfg) (cache tgt m : Bytes) : Prop :=
+  unambB c m = true ∨ cache = m ∨ (m = tgt ∧ cache ∉ names c.L)
+
+/-- tracked level first, then the target, then the first candidate -/
+theorem current_eq {c : Cfg} {cache tgt p0 m : Bytes} {ps : List Bytes} (hmem : m ∈ p0 :: ps)
+    (hnames : ∀ x ∈ p0 :: ps, x ∈ names c.L) (hall : unambB c m = true → ∀ x ∈ p0 :: ps, x = m)
+    (hr : Resolves c cache tgt m) :
     (if cache ∈ p0 :: ps then cache else if tgt ∈ p0 :: ps then tgt else p0) = m := by
-  split
-  · rename_i h1; exact h _ h1
-  · split
-    · rename_i h2; exact h _ h2
-    · exact h p0 (by simp)
+  rcases hr with hu | hc | ⟨ht, hc⟩
+  · have h := hall hu
+    split
+    · rename_i h1; exact h _ h1
+    · split
+      · rename_i h2; exact h _ h2
+      · exact h p0 (by simp)
+  · subst hc; rw [if_pos hmem]
+  · subst ht
+    rw [if_neg (fun h => hc (hnames _ h)), if_pos hmem]
 
 /-- at the target: no action, the cache is set to the level read from the prompt -/
 theorem processAcquire_same {c : Cfg} (hd : Dom c) {o : Orders} (ho : o.Valid) {m : Bytes}
-    (hm : m ∈ names c.L) (cache : Bytes) :
+    (hm : m ∈ names c.L) (cache : Bytes) (hr : Resolves c cache m m) :
     processAcquire c.matchP o c.L cache m (c.promptOf m) = .ok ⟨.noAction, m, m⟩ := by
-  obtain ⟨p0, ps, hdc, hall⟩ := determineCurrent_at hd ho hm
-  simp only [processAcquire, hdc, current_eq hall, if_true]
+  obtain ⟨p0, ps, hdc, hmem, hnames, hall⟩ := determineCurrent_at hd ho hm
+  simp only [processAcquire, hdc, current_eq hmem hnames hall hr, if_true]
 
 /-- away from the target: the decision follows the second node of the simple path -/
 theorem processAcquire_step {c : Cfg} (hd : Dom c) {o : Orders} (ho : o.Valid) {m tgt x : Bytes}
     {rest : List Bytes} (hp : SimplePath (par c.L) m tgt (m :: x :: rest))
-    (hV : ∀ v ∈ m :: x :: rest, v ∈ names c.L) (cache : Bytes) :
+    (hV : ∀ v ∈ m :: x :: rest, v ∈ names c.L) (cache : Bytes) (hr : Resolves c cache tgt m) :
     processAcquire c.matchP o c.L cache tgt (c.promptOf m) =
       .ok (if par c.L m = some x then ⟨.deescalate, m, unknownPriv⟩
            else ⟨.escalate, x, unknownPriv⟩) := by
   have hm : m ∈ names c.L := hV m (by simp)
   have hx : x ∈ names c.L := hV x (by simp)
-  obtain ⟨p0, ps, hdc, hall⟩ := determineCurrent_at hd ho hm
+  obtain ⟨p0, ps, hdc, hmem, hnames, hall⟩ := determineCurrent_at hd ho hm
   have hne : m ≠ tgt := by
     intro h
     have hl := hp.2.1
@@ -77,7 +136,8 @@ theorem processAcquire_step {c : Cfg} (hd : Dom c) {o : Orders} (ho : o.Valid) {
   obtain ⟨lx, hlx⟩ := find?_isSome_of_mem hx
   obtain ⟨d, hdep⟩ := hd.tree.depth
   have hmne : m ≠ [] := fun h => hd.tree.nonempty (h ▸ hm)
-  simp only [processAcquire, hdc, current_eq hall, hne, if_false, pathDFS_eq hd.tree ho hp hV, hlx]
+  simp only [processAcquire, hdc, current_eq hmem hnames hall hr, hne, if_false,
+    pathDFS_eq hd.tree ho hp hV, hlx]
   have hadj : Adj (par c.L) m x := hp.2.2.1.1
   rcases hadj with h | h
   · -- x is the parent of m
@@ -97,6 +157,36 @@ theorem processAcquire_step {c : Cfg} (hd : Dom c) {o : Orders} (ho : o.Valid) {
       have h2 := hdep _ _ hc
       omega
     simp [hpr, hnot, (find?_some hlx).2]
+
+/-- an interior node of a simple path has two different neighbours, so (`ambigLeaf`) its prompt is
+unambiguous -/
+theorem interior_unamb {c : Cfg} (hd : Dom c) : ∀ (t : List Bytes) (a tgt : Bytes),
+    Walk (par c.L) (a :: t) → (a :: t).Nodup → (a :: t).getLast? = some tgt →
+    (∀ v ∈ a :: t, v ∈ names c.L) → ∀ v ∈ t, v ≠ tgt → unambB c v = true := by
+  intro t
+  induction t with
+  | nil => intro a tgt _ _ _ _ v hv; cases hv
+  | cons x rest ih =>
+    intro a tgt hw hn hl hV v hv hne
+    rw [List.getLast?_cons_cons] at hl
+    rcases List.mem_cons.1 hv with rfl | hv'
+    · cases rest with
+      | nil => simp at hl; exact absurd hl hne
+      | cons w rest' =>
+        have hleaf := hd.leaves
+        simp only [ambigLeaf, List.all_eq_true, Bool.or_eq_true, beq_iff_eq] at hleaf
+        obtain ⟨lv, hlv, hlvn⟩ := mem_names_iff.1 (hV v (by simp))
+        rcases hleaf lv hlv with h | h
+        · rw [hlvn] at h; exact h
+        · exfalso
+          rw [hlvn] at h
+          have h1 : a ∈ neighbours c.L v := mem_neighbours_of_adj hw.1.symm
+          have h2 : w ∈ neighbours c.L v := mem_neighbours_of_adj hw.2.1
+          have := h a h1 w h2
+          have hn' := (List.nodup_cons.1 hn).1
+          exact hn' (by rw [this]; simp)
+    · exact ih x tgt hw.2 (List.nodup_cons.1 hn).2 hl (fun u hu => hV u (List.mem_cons_of_mem _ hu))
+        v hv' hne
 
 /-! ## the device -/
 
@@ -259,7 +349,8 @@ the cache names the target, and the device received exactly `expectedLog p`. -/
 theorem acquireLoop_path {c : Cfg} (hd : Dom c) (tgt : Bytes) :
     ∀ (p : List Bytes) (s : Sess) (fuel count : Nat),
       SimplePath (par c.L) s.dev.mode tgt p → (∀ v ∈ p, v ∈ names c.L) →
-      s.dev.awaiting = none → p.length ≤ fuel → count + p.length ≤ 2 * c.L.length + 1 →
+      s.dev.awaiting = none → Resolves c s.cache tgt s.dev.mode →
+      p.length ≤ fuel → count + p.length ≤ 2 * c.L.length + 1 →
       acquireLoop c tgt fuel count s =
         (none, { dev := { mode := tgt, awaiting := none, log := s.dev.log ++ expectedLog c p },
                  cache := tgt, tick := s.tick + p.length }) := by
@@ -267,7 +358,7 @@ theorem acquireLoop_path {c : Cfg} (hd : Dom c) (tgt : Bytes) :
   induction p with
   | nil => intro s fuel count hp; simp [SimplePath] at hp
   | cons a t ih =>
-    intro s fuel count hp hV haw hfuel hcount
+    intro s fuel count hp hV haw hres hfuel hcount
     have ha : s.dev.mode = a := by
       have := hp.1; simp at this; exact this.symm
     cases fuel with
@@ -280,11 +371,15 @@ theorem acquireLoop_path {c : Cfg} (hd : Dom c) (tgt : Bytes) :
         have hm : s.dev.mode ∈ names c.L := ha ▸ hV a (by simp)
         simp only [acquireLoop, getPrompt, dev_bare c s.dev haw]
         rw [ha] at hm ⊢
-        rw [processAcquire_same hd (hd.ord _) hm]
+        rw [processAcquire_same hd (hd.ord _) hm _ (ha ▸ hres)]
         simp [expectedLog, haw]
       | cons x rest =>
         have hp' : SimplePath (par c.L) a tgt (a :: x :: rest) := ha ▸ hp
-        have hstep := processAcquire_step hd (hd.ord s.tick) hp' hV s.cache
+        have hstep := processAcquire_step hd (hd.ord s.tick) hp' hV s.cache (ha ▸ hres)
+        have hresx : Resolves c unknownPriv tgt x := by
+          by_cases hxt : x = tgt
+          · exact Or.inr (Or.inr ⟨hxt, hd.noUnknown⟩)
+          · exact Or.inl (interior_unamb hd (x :: rest) a tgt hp'.2.2.1 hp'.2.2.2 hp'.2.1 hV x (by simp) hxt)
         have hadj : Adj (par c.L) a x := hp.2.2.1.1
         have hrest : SimplePath (par c.L) x tgt (x :: rest) :=
           ⟨rfl, by have := hp.2.1; rw [List.getLast?_cons_cons] at this; exact this,
@@ -301,7 +396,7 @@ theorem acquireLoop_path {c : Cfg} (hd : Dom c) (tgt : Bytes) :
                     tick := s.tick + 1 }) haw (p := x) (by simpa [ha] using hpar)
           simp only [ha] at this
           simp only [this, hcnt, if_false]
-          rw [ih _ fuel (count + 1) hrest hVrest rfl (by simp at hfuel ⊢; omega)
+          rw [ih _ fuel (count + 1) hrest hVrest rfl hresx (by simp at hfuel ⊢; omega)
             (by simp at hcount ⊢; omega)]
           simp [expectedLog, stepEntries, hpar, Nat.add_assoc, Nat.add_comm]
         · -- down: escalate into the child
@@ -315,7 +410,7 @@ theorem acquireLoop_path {c : Cfg} (hd : Dom c) (tgt : Bytes) :
                     tick := s.tick + 1 }) haw (x := x) (by simpa [ha] using hpar')
           simp only [ha] at this
           simp only [this, hcnt, if_false]
-          rw [ih _ fuel (count + 1) hrest hVrest rfl (by simp at hfuel ⊢; omega)
+          rw [ih _ fuel (count + 1) hrest hVrest rfl hresx (by simp at hfuel ⊢; omega)
             (by simp at hcount ⊢; omega)]
           simp [expectedLog, stepEntries, hpar, Nat.add_assoc, Nat.add_comm]
 
@@ -368,7 +463,7 @@ namespace Scrapli.Priv
 open Scrapli Scrapli.Forest
 
 theorem acquirePriv_ok {c : Cfg} (hd : Dom c) (s : Sess) {tgt : Bytes} (haw : s.dev.awaiting = none)
-    (ht : tgt ∈ names c.L) {p : List Bytes} (hp : SimplePath (par c.L) s.dev.mode tgt p)
+    (hres : Resolves c s.cache tgt s.dev.mode) (ht : tgt ∈ names c.L) {p : List Bytes} (hp : SimplePath (par c.L) s.dev.mode tgt p)
     (hV : ∀ v ∈ p, v ∈ names c.L) :
     acquirePriv c tgt s =
       (none, { dev := { mode := tgt, awaiting := none, log := s.dev.log ++ expectedLog c p },
@@ -377,19 +472,26 @@ theorem acquirePriv_ok {c : Cfg} (hd : Dom c) (s : Sess) {tgt : Bytes} (haw : s.
   have hlen := path_length_le hp hV
   unfold acquirePriv
   rw [hl]
-  exact acquireLoop_path hd tgt p s _ 0 hp hV haw (by omega) (by omega)
+  exact acquireLoop_path hd tgt p s _ 0 hp hV haw hres (by omega) (by omega)
 
 theorem acquirePriv_unknown (c : Cfg) (s : Sess) {tgt : Bytes} (ht : tgt ∉ names c.L) :
     acquirePriv c tgt s = (some .privilege, s) := by
   unfold acquirePriv
   rw [find?_none_iff.2 ht]
 
-/-- the invariant: the device sits at a prompt in some level, and a cache that names a level
-names the device's level -/
+/-- the invariant: the device sits at a prompt in some level, a cache that names a level names the
+device's level, and the cache is accurate whenever the device's prompt is ambiguous -/
 structure Inv (c : Cfg) (s : Sess) : Prop where
   atPrompt : s.dev.awaiting = none
   inLevel : s.dev.mode ∈ names c.L
   coherent : s.cache ∈ names c.L → s.dev.mode = s.cache
+  tracked : unambB c s.dev.mode = false → s.cache = s.dev.mode
+
+theorem Inv.resolves {c : Cfg} {s : Sess} (hi : Inv c s) (tgt : Bytes) :
+    Resolves c s.cache tgt s.dev.mode := by
+  cases hu : unambB c s.dev.mode with
+  | true => exact Or.inl hu
+  | false => exact Or.inr (Or.inl (hi.tracked hu))
 
 /-- level an operation must run at -/
 def opLevel (c : Cfg) : Op → Bytes
@@ -450,7 +552,7 @@ theorem runOp_spec {c : Cfg} (hd : Dom c) {s : Sess} (hi : Inv c s) (op : Op)
           tick := s.tick + (if opSkips c s op then 0 else p.length) }) := by
   obtain ⟨p, hp, hV⟩ := path_exists hd.tree hi.inLevel hlv
   refine ⟨p, hp, hV, ?_⟩
-  have hacq := acquirePriv_ok hd s hi.atPrompt hlv hp hV
+  have hacq := acquirePriv_ok hd s hi.atPrompt (hi.resolves _) hlv hp hV
   have haw := hi.atPrompt
   cases op with
   | sendCommand cmd =>
